@@ -28,6 +28,7 @@ class Check:
         self.notes = []
         self.rules_run = {}
         self.floors = {}
+        self.floor_failures = []
         self.extra = {}
 
     # -- recording
@@ -58,8 +59,7 @@ class Check:
         """vacuity guard: fewer instances than confirmed by hand => the analysis is broken"""
         self.floors[rule] = {"count": count, "floor": minimum, "what": what}
         if count < minimum:
-            from .core import AnalysisError
-            raise AnalysisError("%s: only %d %s found, floor is %d (rule would pass vacuously)" % (rule, count, what, minimum))
+            self.floor_failures.append("%s: only %d %s found, floor is %d (rule would pass vacuously)" % (rule, count, what, minimum))
 
     # -- finishing
     def finish(self, explanation, rule_text, level="other"):
@@ -133,4 +133,8 @@ class Check:
             self.prop, self.tier, n_ob, len(self.rules_run), n_ok, len(known_hits), len(violations), time.time() - self.t0))
         for l in lines:
             print(l)
-        return 1 if violations else 0
+        for ff in self.floor_failures:
+            print("ANALYSIS-ERROR property=%s %s" % (self.prop, ff))
+        if violations:
+            return 1
+        return 2 if self.floor_failures else 0
